@@ -347,6 +347,11 @@ theorem pair_resolved_exactly (byId : OpenFGAVerif.Model.Resolver.Bytes → Open
   ResolverKeys.resolve_exact byId latest evs hall
 
 /-- contrast: a key without the model id answers a request for model m′ with the model m that is in flight -/
-theorem resolver_key_without_model_id_mixes_models := ResolverKeys.drop_model_leaks
+theorem resolver_key_without_model_id_mixes_models :
+    ((OpenFGAVerif.Model.Resolver.run ResolverKeys.keyDropModel ResolverKeys.dsW (fun _ => true)
+        (OpenFGAVerif.Model.Resolver.empty : OpenFGAVerif.Model.Resolver.St OpenFGAVerif.Model.Resolver.Bytes OpenFGAVerif.Model.Resolver.Req Nat)
+        [.arrive ⟨[1], [10]⟩, .arrive ⟨[1], [11]⟩, .finish 0, .arrive ⟨[1], [11]⟩]).2.map (·.2) = [some 100, some 100, some 100]) ∧
+    ResolverKeys.dsW ⟨[1], [11]⟩ = some 101 :=
+  ResolverKeys.drop_model_leaks
 
 end OpenFGAVerif.C31
